@@ -115,6 +115,59 @@ def _identity_fast_path(ctx, repo, fi, du, r):
     return {ds[0].idx}
 
 
+def _selector(du, e, at):
+    """How an index expression selects the matched events: ("mask",) for `ib >= 0` written in place, ("idx", name, def) for a local holding where(ib >= 0)[0] /
+    flatnonzero(ib >= 0); None otherwise."""
+    if _mask_is_matched(e):
+        return ("mask",)
+    if isinstance(e, ast.Name):
+        ds = du.strong_reaching(e.id, at)
+        if len(ds) == 1 and ds[0].kind == "assign" and ds[0].value is not None:
+            v = ds[0].value
+            if isinstance(v, ast.Subscript) and const_value(v.slice) == (True, 0) and isinstance(v.value, ast.Call) and call_name(v.value) in ("where", "nonzero") and v.value.args \
+                    and _mask_is_matched(v.value.args[0]):
+                return ("idx", e.id, ds[0])
+            if isinstance(v, ast.Call) and call_name(v) == "flatnonzero" and v.args and _mask_is_matched(v.args[0]):
+                return ("idx", e.id, ds[0])
+            if _mask_is_matched(v):
+                return ("idx", e.id, ds[0])
+    return None
+
+
+def _stale(du, sel, at):
+    """A selector computed once (a local) describes `ib` as it was then: a store into ib on a path from its definition to the use makes it stale. -> the store or None"""
+    if sel is None or sel[0] != "idx":
+        return None
+    cfg = du.cfg
+    d = sel[2]
+    un = cfg.node_for(at)
+    for m in du.defs:
+        if m.var == "ib" and m.kind in ("mutate", "aug", "assign") and m.node.id != d.node.id:
+            if cfg.reachable(d.node, m.node) and cfg.reachable(m.node, un):
+                return m
+    return None
+
+
+def _pairs_through_selector(ctx, repo, fi, du, x, y, at, what, key):
+    """x = tsa[S] and y = tsb[ib[S]] (or ib[S]) with one selector S that still describes ib at `at`. -> True when this form applies (instances recorded)."""
+    if not (isinstance(x, ast.Subscript) and isinstance(y, ast.Subscript)):
+        return False
+    sx = _selector(du, x.slice, at)
+    inner = y.slice if loc_name(y.value) == "ib" else (y.slice.slice if isinstance(y.slice, ast.Subscript) and loc_name(y.slice.value) == "ib" else None)
+    sy = _selector(du, inner, at) if inner is not None else None
+    if sx is None or sy is None:
+        return False
+    same = sx[:2] == sy[:2]
+    ctx.check(same, fi, at, f"{what}: {src(x)[:40]} / {src(y)[:40]}", "both sides select the matched events with one selector",
+              f"{what}: `{src(x)[:50]}` and `{src(y)[:50]}` select the matched events differently: pairs are mis-aligned", key=key + ":same", name_free=True)
+    m = _stale(du, sx, at) or _stale(du, sy, at)
+    ctx.check(m is None, fi, at, f"{what}: selector up to date", "the selector of the matched events is computed after the last store into the match vector",
+              (f"{what}: the matched events are selected with `{sx[1] if sx[0] == 'idx' else sy[1]}`, computed at line {getattr((sx if sx[0] == 'idx' else sy)[2].stmt, 'lineno', '?')} - before "
+               f"`{src(m.stmt)[:60]}` (line {getattr(m.stmt, 'lineno', '?')}) stored further matches into ib: the pairs found afterwards are missing from {what} "
+               "(true correspondences dropped; the map is fitted / interpolated without them)") if m is not None else "", key=key + ":fresh", name_free=True)
+    return True
+
+
 def d1_pairs(ctx):
     ctx.rule("D1", "returned pairs are (where(ib >= 0)[0], ib[ib >= 0]) under one mask; the fit pairs tsa[mask] with tsb[ib[mask]]; ib initialised to -1")
     repo = ctx.repo
@@ -141,6 +194,19 @@ def d1_pairs(ctx):
             and ia.value.args and _mask_is_matched(ia.value.args[0])
         ok_a = ok_a or (isinstance(ia, ast.Call) and call_name(ia) == "flatnonzero" and ia.args and _mask_is_matched(ia.args[0]))
         ok_b = isinstance(ibv, ast.Subscript) and loc_name(ibv.value) == "ib" and _mask_is_matched(ibv.slice)
+        if not (ok_a and ok_b):
+            r2, r3 = r.value.elts[2], r.value.elts[3]
+            sa_ = _selector(du, r2, r)
+            if sa_ is not None and sa_[0] == "idx" and isinstance(r3, ast.Subscript) and loc_name(r3.value) == "ib":
+                sb_ = _selector(du, r3.slice, r)
+                same = sb_ is not None and sb_[:2] == sa_[:2]
+                ctx.check(same, fi, r, r, "k-th returned pair is (an index m of tsa with a match, the match stored for m)",
+                          f"the returned index vectors `{src(r2)}` / `{src(r3)}` are not cut by one selector of the matched events", key="pair-mask", name_free=True)
+                m = _stale(du, sa_, r)
+                ctx.check(m is None, fi, r, "returned selector up to date", "the returned pairs include every match stored in ib",
+                          (f"the returned pairs are selected with `{sa_[1]}`, computed at line {getattr(sa_[2].stmt, 'lineno', '?')} - before `{src(m.stmt)[:60]}` (line {getattr(m.stmt, 'lineno', '?')}) "
+                           "stored further matches into ib: the pairs found by the second pass are not returned") if m is not None else "", key="pair-fresh", name_free=True)
+                continue
         ctx.check(ok_a and ok_b, fi, r, r, "k-th returned pair is (an index m of tsa with a match, the match stored for m)",
                   f"the returned index vectors `{src(r.value.elts[2])}` / `{src(r.value.elts[3])}` are not cut by the one mask `ib >= 0`: pairs are mis-aligned (or the match with index 0 is dropped)",
                   key="pair-mask")
@@ -159,15 +225,33 @@ def d1_pairs(ctx):
     if fit is None:
         raise AnchorMissing("sync_timestamps: polyfit not found")
     x, y, deg = fit.args[:3]
+    if host is not fi and isinstance(x, ast.Name) and x.id in host.params and isinstance(y, ast.BinOp) and isinstance(y.op, ast.Sub) and isinstance(y.left, ast.Name) \
+            and y.left.id in host.params and norm(y.right) == norm(x) and const_value(deg) == (True, 1):
+        # the helper receives the matched times themselves: fit(ta, tb - ta); every call site must pass tsa[S], tsb[ib[S]] with one up-to-date selector S
+        from sa.calls import bind as _bind
+        calls = [c for c in find(fi.node, ast.Call, nested=False) if isinstance(c.func, ast.Name) and c.func.id == host.node.name]
+        okall = bool(calls)
+        for c in calls:
+            b = _bind(c, host)
+            ax, ay = b.bound.get(x.id), b.bound.get(y.left.id)
+            if ax is None or ay is None or not _pairs_through_selector(ctx, repo, fi, du, ax, ay, c, f"the fit / interpolation of call `{src(c)[:50]}`", f"fit-call:{calls.index(c)}"):
+                okall = False
+        if okall:
+            it = [c for c in find(host.node, ast.Call, nested=False) if call_name(c) == "interp1d" and len(c.args) >= 2]
+            for c in it:
+                ok = [loc_name(a_) for a_ in c.args[:2]] == [x.id, y.left.id]
+                ctx.check(ok, host, c, c, "the interpolant goes through the matched pairs", f"`{src(c)[:80]}` does not interpolate the matched times it was given", key="interp-pairs", name_free=True)
+            x = y = None
     okx = isinstance(x, ast.Subscript) and loc_name(x.value) == "tsa" and _mask_is_matched(x.slice)
     oky = False
     if isinstance(y, ast.BinOp) and isinstance(y.op, ast.Sub):
         l, r_ = y.left, y.right
         oky = (isinstance(l, ast.Subscript) and loc_name(l.value) == "tsb" and isinstance(l.slice, ast.Subscript) and loc_name(l.slice.value) == "ib" and _mask_is_matched(l.slice.slice)
                and norm(r_) == norm(x))
-    ctx.check(okx and oky and const_value(deg) == (True, 1), host, fit, fit, "degree-1 fit of (tsb[matched] - tsa[matched]) against tsa[matched], the same pairs on both sides",
-              f"`{src(fit)[:90]}` does not fit tsb[ib[mask]] - tsa[mask] against tsa[mask] with one mask: the drift is fitted through mis-paired events", key="fit-pairs")
-    it = [c for c in find(host.node, ast.Call, nested=False) if call_name(c) == "interp1d" and len(c.args) >= 2]
+    if x is not None:
+        ctx.check(okx and oky and const_value(deg) == (True, 1), host, fit, fit, "degree-1 fit of (tsb[matched] - tsa[matched]) against tsa[matched], the same pairs on both sides",
+                  f"`{src(fit)[:90]}` does not fit tsb[ib[mask]] - tsa[mask] against tsa[mask] with one mask: the drift is fitted through mis-paired events", key="fit-pairs")
+    it = [c for c in find(host.node, ast.Call, nested=False) if call_name(c) == "interp1d" and len(c.args) >= 2] if x is not None else []
     for c in it:
         a, b = c.args[:2]
         ok = isinstance(a, ast.Subscript) and loc_name(a.value) == "tsa" and _mask_is_matched(a.slice) and isinstance(b, ast.Subscript) and loc_name(b.value) == "tsb" \
